@@ -170,8 +170,14 @@ func checkC12Sign(c c12SignCase) error {
 	case 2:
 		h.RawUnprotected = rc.Encode(u, nil)
 		h.Unprotected = cose.UnprotectedHeader{}
+	case 3:
+		// the raw bytes of a decoded message dropped by truncation: empty, not nil - the map counts
+		h.RawUnprotected = []byte{}
+	case 4:
+		h.RawUnprotected = rc.Encode(u, nil)
+		h.Unprotected = nil
 	}
-	if c.OddCsig != 0 && c.RawUnprot != 2 {
+	if c.OddCsig != 0 && c.RawUnprot != 2 && c.RawUnprot != 4 {
 		cs := cose.Countersignature{Headers: cose.Headers{Protected: cose.ProtectedHeader{cose.HeaderLabelAlgorithm: cose.AlgorithmEdDSA}, Unprotected: cose.UnprotectedHeader{}}, Signature: []byte{1, 2, 3}}
 		if h.Unprotected == nil {
 			h.Unprotected = cose.UnprotectedHeader{}
@@ -205,7 +211,7 @@ func checkC12Sign(c c12SignCase) error {
 	}
 	// the verdict does not depend on which Go integer type spells the labels of the base headers (those of
 	// the governed parameters 258 / 259 / 260 included)
-	if c.OddCsig == 0 && c.RawUnprot != 2 && !hasDupLabels(p) && !hasDupLabels(u) {
+	if c.OddCsig == 0 && c.RawUnprot != 2 && c.RawUnprot != 4 && !hasDupLabels(p) && !hasDupLabels(u) {
 		h2 := bridge.Headers(respellLabels(p), respellLabels(u))
 		h2.RawProtected, h2.RawUnprotected = h.RawProtected, h.RawUnprotected
 		_, err2 := cose.SignHashEnvelope(refcose.NewEntropy([]byte("c12")), sg, h2, c.payload())
@@ -367,7 +373,7 @@ func TestC12_Sign(t *testing.T) {
 			c.Base.Hash = rc.Hex{}
 		}
 		c.RawProt = rapid.IntRange(0, 4).Draw(rt, "rawprot") == 0
-		c.RawUnprot = rapid.SampledFrom([]int{0, 0, 0, 1, 2}).Draw(rt, "rawunprot")
+		c.RawUnprot = rapid.SampledFrom([]int{0, 0, 0, 1, 2, 3, 4}).Draw(rt, "rawunprot")
 		if c.RawUnprot != 0 {
 			// raw bytes are compared with reference encodings: keep spellings neutral
 			c.Base.Unprot = respellAll(c.Base.Unprot)
